@@ -41,7 +41,7 @@ PIECES = [b")", b")", b"(", b" ", b" ", b"\t", b"\n", b":", b"\\", b"\\n", b") "
           b"\xff", b"\x80", b"\xc3\xa9", b"\xe2\x82", b"\r", b"\x0b", b"\x01", b"-", b"_", b"Uid:\t", b"Gid:\t", b"Threads:\t",
           b"ctxt_switches:\t", b"Uid:\t0\t0\t0", b"Threads:\t99", b"Name:\t", b"\nUid:\t0\t0\t0\t0", b") R 0 0 0 0"]
 PID = 4242
-KNOWN_HIGH_MINOR = "terminal-tty-minor-ge-2^19"
+MASKED_TTY = True   # model parameter: False = terminal() before the repair 2414912 (signed tty_nr looked up)
 
 
 def _comm(rng, maxlen=15):
@@ -270,14 +270,6 @@ def _raw_ppid_case(rng):
     return {"kind": "ppid_map_raw", "cls": "raw-ppid_map", "procs": procs}
 
 
-def _known_keys():
-    try:
-        d = json.load(open(os.path.join(os.path.dirname(os.path.dirname(os.path.abspath(__file__))), "known_findings.json")))
-        return {f["key"] for f in d.get("findings", []) if f.get("property") == ID and f.get("status") == "known"}
-    except Exception:
-        return set()
-
-
 def gen_cases(rng, tier):
     n = {"quick": 1, "thorough": 25, "search": 2}[tier]
     cases = []
@@ -309,9 +301,8 @@ def gen_cases(rng, tier):
         data = rng.choice([data[:i], data[i:], data[:i] + rng.choice([b"\n", b"\t", b"x", b"7"]) + data[i + 1:],
                            data.replace(b"\n", b"\r\n"), data.replace(b"\t", b" ")])
         cases.append({"kind": "status_raw", "cls": "raw-status", "data": data.hex()})
-    if KNOWN_HIGH_MINOR in _known_keys():
-        for _ in range(6):
-            cases.append(_stat_case(rng, known_high=True))
+    for _ in range(8 * n):
+        cases.append(_stat_case(rng, known_high=True))
     if tier == "thorough":
         names = [b""]
         for a in CRIT:
@@ -367,11 +358,11 @@ def coq_term(case):
     if k == "stat":
         devs = G.lst(["(Build_devnode %s %s %s)" % (G.by(p), G.z(ma), G.z(mi)) for p, ma, mi in case["devs"]])
         tty = "None" if case["tty"] is None else "(Some (%s, %s))" % (G.z(case["tty"][0]), G.z(case["tty"][1]))
-        return "run_stat %s %s %s %s %s" % (_pos(case["clk"]), G.z(case["btime"]), devs, tty,
+        return "run_stat %s %s %s %s %s %s" % (G.bo(MASKED_TTY), _pos(case["clk"]), G.z(case["btime"]), devs, tty,
                                             _kstat(case["pid"], bytes.fromhex(case["comm"]), _after(case)))
     if k == "stat_raw":
         devs = G.lst(["(%s, %s)" % (G.by(p), G.opt(r, G.z)) for p, r in case["devs"]])
-        return "run_stat_raw %s %s %s %s" % (_pos(case["clk"]), G.z(case["btime"]), devs, G.by(bytes.fromhex(case["data"])))
+        return "run_stat_raw %s %s %s %s %s" % (G.bo(MASKED_TTY), _pos(case["clk"]), G.z(case["btime"]), devs, G.by(bytes.fromhex(case["data"])))
     if k == "status":
         ls = lambda xs: G.lst([G.by(x) for x in xs])  # noqa
         ids = " ".join(G.by(str(x)) for x in case["uid"] + case["gid"])
@@ -440,12 +431,6 @@ def _oom(x):
 
 METHODS = {"stat": ["name", "ppid", "status", "cpu_times", "create_time", "cpu_num", "terminal"],
            "status": ["uids", "gids", "num_threads", "num_ctx_switches"]}
-
-
-def finding_key(case, coq):
-    if case["kind"] == "stat" and case.get("tty") and case["tty"][1] >= 2 ** 19:
-        return KNOWN_HIGH_MINOR
-    return None
 
 
 def judge(case, coq, impl):
